@@ -628,7 +628,9 @@ def int_shards(quick):
            ("pow3-small", 0), ("pow3-small", 1), ("pow3-small", 2), ("pow3-small", 3), ("huge",), ("jacobi-small",),
            ("inverse-small",)]
     sh += [("sqrt-small", i, 8) for i in range(8)]
-    sh += [("sqrt-curve", i) for i in range(len(CURVE_PRIMES))]
+    sh = [("sqrt-curve", i, j, 6) for i in range(len(CURVE_PRIMES)) for j in range(6)
+          if CURVE_PRIMES[i][1] % 8 == 1] + sh          # p224 (2-adicity 96: the long Tonelli-Shanks loop) first
+    sh += [("sqrt-curve", i, 0, 1) for i in range(len(CURVE_PRIMES)) if CURVE_PRIMES[i][1] % 8 != 1]
     top = 2 ** 13 if quick else 2 ** 16
     sh += [("isqrt-range", a, a + 1024) for a in range(0, top, 1024)]
     return [("int",) + s + (quick,) for s in sh]
@@ -798,14 +800,17 @@ def int_worker(sh, acc):
     elif kind == "sqrt-curve":
         name, p = CURVE_PRIMES[sh[1]]
         for i in range(6 if quick else 24):
+            if i % sh[3] != sh[2]:
+                continue
             r = seeded_int("c14sqrt%s/%d" % (name, i), p.bit_length() + 8) % p
             for rr in (r, r * r % p, p - (r * r % p)):
                 int_case("sqrt_mod", (rr, p), "I", acc)
                 int_case("_tonelli_shanks", (rr, p), "I", acc)
             int_case("sqrt_mod", (r * r, p), "i", acc)          # unreduced and negative residues
             int_case("sqrt_mod", (r * r % p - p, p), "i", acc)
-        for rr in (0, 1, 2, 3, 4, p - 1, p - 2, p, p + 1, -1):
-            int_case("sqrt_mod", (rr, p), "I", acc)
+        if sh[2] == 0:
+            for rr in (0, 1, 2, 3, 4, p - 1, p - 2, p, p + 1, -1):
+                int_case("sqrt_mod", (rr, p), "I", acc)
     elif kind == "jacobi-small":
         for n in range(-3, 200 if not quick else 100):
             for a in range(-60, 61):
